@@ -24,6 +24,10 @@ def gen_case(rng, thorough, expiry=False):
         for a in nodes: deps[a] = [rng.choice(nodes + ["ghost", "zz"])]
     else:
         for a in nodes: deps[a] = rng.sample(nodes, rng.randint(0, min(3, k)))
+    if rng.random() < 0.3:
+        # a node may also hang on a property fact of another node (ids of the form !id.prop), which in turn dies with that node
+        a, b = rng.choice(nodes), rng.choice(nodes)
+        deps[a] = deps[a] + ["!%s.%s" % (b, rng.choice(["disabled", "note"]))]
     ops = []
     now = int(time.time())
     for n in nodes:
@@ -38,9 +42,9 @@ def gen_case(rng, thorough, expiry=False):
             if dw: f["deleteWith"] = dw
             if rng.random() < 0.1: f["deleteWith"] = dw + [7, {"x": 1}]   # non-string entries are ignored by the cascade
             ops.append({"op": "addFact", "id": n, "fact": f})
-        if rng.random() < 0.15:
+        if rng.random() < 0.25:
             ops.append({"op": "enableRule", "id": n, "enable": False})      # a property fact attached to n (deleteWith:[n])
-        if rng.random() < 0.1:
+        if rng.random() < 0.2:
             ops.append({"op": "addFact", "id": "", "fact": {"id": n, "!note": "p"}})   # another property fact; no deleteWith of its own
     rng.shuffle(nodes)
     if expiry:
@@ -56,7 +60,9 @@ def gen_case(rng, thorough, expiry=False):
         ops.append({"op": "snapshot"})
     else:
         for n in nodes[: rng.randint(1, len(nodes))]:
-            ops.append({"op": rng.choice(["remFact", "remFact", "remRule"]) if rng.random() < 0.9 else "remFact", "id": n if rng.random() < 0.9 else rng.choice(["ghost", "!%s.disabled" % n])})
+            z = rng.random()
+            if z < 0.1: ops.append({"op": "enableRule", "id": n, "enable": True})    # removes the flag fact !n.disabled (and what hangs on it)
+            else: ops.append({"op": rng.choice(["remFact", "remFact", "remRule"]), "id": n if z < 0.85 else rng.choice(["ghost", "!%s.disabled" % n, "!%s.note" % n])})
             ops.append({"op": "snapshot"})
     for o in ops: o["loc"] = "a"
     return ops
